@@ -29,6 +29,7 @@ type c13Case struct {
 	V       any    `json:"v"`
 	Sec     string `json:"sec"`
 	Preset  bool   `json:"preset"`
+	Unsized bool   `json:"unsized"`
 	Skip    bool   `json:"skip"`
 	Loc     string `json:"loc"`
 	Shape   string `json:"shape"`
@@ -190,6 +191,10 @@ func c13Run(c *Case) []any {
 			req.GetBody = func() (io.ReadCloser, error) { return &c13Closable{r: strings.NewReader(bt)}, nil }
 		} else {
 			req.GetBody = nil
+		}
+		if tc.Unsized {
+			req.Body = io.NopCloser(io.MultiReader(strings.NewReader(bodyText)))
+			req.ContentLength = 0
 		}
 	} else {
 		req = httptest.NewRequest(method, target, nil)
